@@ -124,6 +124,11 @@ def generate(tier, seed):
             seqs = [a * k + "W", b * k + "W", a * k, b * k, a * (k - 1) + b + "W"]
             yield "engines", {"seqs": seqs, "k": k, "engines": ["nearest_neighbor", "kdtree"] + (["hash_based"] if k <= 2 else []),
                               "tag": "radius_boundary_cases"}, True
+    # all strings of one length (no other length present): shift pairs need an intermediate of another length
+    for alpha, L in (("AC", 4), ("ACD", 3), ("AC", 5)):
+        u = [x for x in G.universe(alpha, L, L)]
+        yield "engines", {"seqs": u, "k": 2, "engines": ALL3}, True
+    yield "engines", {"seqs": ["CASSLGF", "ASSLGFC", "CASSLGW", "SSLGFCA", "CASSLGF"], "k": 2, "engines": ALL3}, True
     # indels next to repeated letters
     runs = ["AAC", "AACC", "ACC", "AAAC", "CAAC", "ACCA", "AAA", "AA", "A", "", "CC", "CAC", "ACA", "AACA", "CAAA"]
     yield "engines", {"seqs": runs, "k": 1, "engines": ALL3}, True
